@@ -231,6 +231,10 @@ func visitInstr(fr *frame, instr ssa.Instruction) continuation {
 
 	case *ssa.Slice:
 		lo, hi, mx := fr.get(instr.Low), fr.get(instr.High), fr.get(instr.Max)
+		if _, abstract := fr.get(instr.X).(symSlice); abstract {
+			fr.env[instr] = slice(fr.get(instr.X), lo, hi, mx)
+			return kNext
+		}
 		if isSym(hi) || isSym(lo) || isSym(mx) {
 			// all out-of-range values of a symbolic bound form one (panicking) path
 			capX := int64(0)
